@@ -85,22 +85,26 @@ def strip_comments(src):
   return ''.join(out)
 
 
-def hygiene():
-  """Forbidden-token gate over every .v file of the development. Returns list of offences."""
+def hygiene(files=None):
+  """Forbidden-token gate over the .v files given (relative to coq/), default: every file. Returns offences."""
   bad = []
-  for root, _dirs, files in os.walk(COQ):
-    for f in files:
-      if not f.endswith('.v'):
-        continue
-      p = os.path.join(root, f)
-      src = strip_comments(open(p, encoding='utf-8').read())
-      for ln, line in enumerate(src.split('\n'), 1):
-        if FORBIDDEN.search(line):
-          bad.append('%s:%d: %s' % (os.path.relpath(p, VERIF), ln, line.strip()[:120]))
-  # _CoqProject must not pass kernel-weakening flags
-  cp = open(os.path.join(COQ, '_CoqProject')).read()
-  if re.search(r'type-in-type|impredicative-set|-noinit|bypass', cp):
-    bad.append('_CoqProject: forbidden flag')
+  if files is None:
+    files = []
+    for root, _dirs, fs in os.walk(COQ):
+      for f in fs:
+        if f.endswith('.v'):
+          files.append(os.path.relpath(os.path.join(root, f), COQ))
+  for f in files:
+    p = os.path.join(COQ, f)
+    src = strip_comments(open(p, encoding='utf-8').read())
+    for ln, line in enumerate(src.split('\n'), 1):
+      if FORBIDDEN.search(line):
+        bad.append('%s:%d: %s' % (os.path.relpath(p, VERIF), ln, line.strip()[:120]))
+  cpf = os.path.join(COQ, '_CoqProject')
+  if os.path.exists(cpf):
+    cp = open(cpf).read()
+    if re.search(r'type-in-type|impredicative-set|-noinit|bypass', cp):
+      bad.append('_CoqProject: forbidden flag')
   return bad
 
 
@@ -162,6 +166,70 @@ def build_all(jobs=16, timeout=3000):
     lock.close()
 
 
+def _deps(f):
+  """Direct project dependencies of one .v file."""
+  return [d for d in closure(f)[1:] if d in _direct(f)]
+
+
+def _direct(f):
+  src = strip_comments(open(os.path.join(COQ, f), encoding='utf-8').read())
+  out = []
+  for m in re.finditer(r'(?:From\s+Scales\s+)?Require\s+(?:Import\s+|Export\s+)?([^.]*(?:\.[A-Za-z_][\w]*)*[^.]*)\.\s', src):
+    for tok in m.group(1).split():
+      if tok.startswith('Scales.'):
+        tok = tok[len('Scales.'):]
+      cand = tok.replace('.', '/') + '.v'
+      if os.path.exists(os.path.join(COQ, cand)) and cand not in out:
+        out.append(cand)
+  return out
+
+
+def topo(files):
+  order = []
+  seen = set()
+
+  def visit(f):
+    if f in seen:
+      return
+    seen.add(f)
+    for d in _direct(f):
+      visit(d)
+    order.append(f)
+  for f in files:
+    visit(f)
+  return order
+
+
+def build_closure(vfile, timeout=1500):
+  """Compiles (full .vo) every stale file in the dependency closure of vfile, in order, under a lock."""
+  ensure_dirs()
+  lock = open(os.path.join(BUILD, '.lock'), 'w')
+  fcntl.flock(lock, fcntl.LOCK_EX)
+  try:
+    rebuilt = set()
+    for f in topo([vfile]):
+      src = os.path.join(COQ, f)
+      vo = src[:-2] + '.vo'
+      stale = (not os.path.exists(vo)) or os.path.getmtime(vo) < os.path.getmtime(src)
+      if not stale:
+        for d in _direct(f):
+          dvo = os.path.join(COQ, d)[:-2] + '.vo'
+          if d in rebuilt or os.path.getmtime(dvo) > os.path.getmtime(vo):
+            stale = True
+            break
+      if stale:
+        rc, out, err = _run(['coqc', '-Q', COQ, 'Scales', '-w', '-notation-overridden,-deprecated-hint-without-locality,-deprecated-hint-rewrite-without-locality', src], timeout)
+        if rc != 0:
+          if os.path.exists(vo):
+            os.remove(vo)
+          return rc, out, err
+        rebuilt.add(f)
+    return 0, '', ''
+  finally:
+    fcntl.flock(lock, fcntl.LOCK_UN)
+    lock.close()
+
+
 def prove(props_file, timeout=1500):
   """Builds Props/<file> (and what it needs) and captures Print Assumptions.
 
@@ -170,29 +238,20 @@ def prove(props_file, timeout=1500):
   ensure_dirs()
   info = dict(ok=False, broken=None, theorems=[], assumptions={}, obligations=0, discharged=0,
               files=[], log='', checker_cmd='')
-  bad = hygiene()
+  files = closure(props_file)
+  bad = hygiene(files)
   if bad:
     info['broken'] = 'hygiene gate: ' + '; '.join(bad[:5])
     info['log'] = '\n'.join(bad)
     return info
-  files = closure(props_file)
   info['files'] = sorted(files)
   info['obligations'] = count_obligations(files)
   target = props_file[:-2] + '.vo'
-  lock = open(os.path.join(BUILD, '.lock'), 'w')
-  fcntl.flock(lock, fcntl.LOCK_EX)
-  try:
-    if (not os.path.exists(os.path.join(COQ, 'Makefile')) or
-        os.path.getmtime(os.path.join(COQ, 'Makefile')) < os.path.getmtime(os.path.join(COQ, '_CoqProject'))):
-      rc, out, err = _run(['coq_makefile', '-f', '_CoqProject', '-o', 'Makefile'], 120, cwd=COQ)
-    rc, out, err = _run(['make', '-j8', target], timeout, cwd=COQ)
-  finally:
-    fcntl.flock(lock, fcntl.LOCK_UN)
-    lock.close()
-  info['checker_cmd'] = 'make -C coq %s && coqc -Q coq Scales coq/%s (Print Assumptions)' % (target, props_file)
+  rc, out, err = build_closure(props_file, timeout)
+  info['checker_cmd'] = 'coqc -Q coq Scales <each file in the dependency closure of %s, in order>; coqc coq/%s (Print Assumptions)' % (props_file, props_file)
   if rc != 0:
     info['log'] = (out + err)[-4000:]
-    m = re.search(r'File "\./([^"]+)", line (\d+)', out + err)
+    m = re.search(r'File "([^"]+)", line (\d+)', out + err)
     info['broken'] = 'theorem file does not compile: %s' % (m.group(0) if m else target)
     return info
   # re-run the property file alone to capture Print Assumptions
